@@ -51,7 +51,7 @@ P = D.DesignProperty(
     rule=("case = generated design spec accepted by the constructor; its formula is built with build_cnf; up to max_checked "
           "projected models (evenly spaced over all enumerated ones) are tested for a unique extension to all auxiliary "
           "variables; non-trivial = at least 2 projected models and at least one auxiliary variable; distinct = distinct spec JSON"),
-    cfg_quick=CFG, n_quick=60, n_thorough=1500, case_limit=(30, 120),
+    cfg_quick=CFG, n_quick=60, n_thorough=700, case_limit=(30, 120),
     limits={"max_T": {"quick": 8, "thorough": 12}, "max_models": {"quick": 600, "thorough": 4000},
             "max_checked": {"quick": 200, "thorough": 1500}},
     assumptions=["pycryptosat is a correct SAT solver",
